@@ -154,6 +154,13 @@ static void h_errfunc(cfg_t *cfg, const char *fmt, va_list ap)
 	evflush();
 }
 
+/* a second error function: the same report, marked, so that a change of handler between parses is visible */
+static void h_errfunc2(cfg_t *cfg, const char *fmt, va_list ap)
+{
+	fprintf(LOG, "{\"ev\":\"handler\",\"h\":2}\n");
+	h_errfunc(cfg, fmt, ap);
+}
+
 static int cb_should_fail(void)
 {
 	cbcount++;
@@ -748,7 +755,7 @@ static void run_op(char **t, int nt)
 	}
 	if (!strcmp(op, "seterrfunc")) {
 		NEED(3); LOC(1);
-		cfg_set_error_function(loc_cfg, atoi(t[2]) ? h_errfunc : NULL);
+		cfg_set_error_function(loc_cfg, atoi(t[2]) == 2 ? h_errfunc2 : atoi(t[2]) ? h_errfunc : NULL);
 		return;
 	}
 	if (!strcmp(op, "parse_buf")) {
